@@ -81,8 +81,12 @@ inductive TapSetter
 
 /-! ## helpers -/
 
-/-- update one register of the request copy -/
-def upd (r : Regs) (a : Nat) (f : Byte → Byte) : Regs := r.set a (f (r a))
+/-- update one register of the request copy: `r.set a (f (r a))`, written so that a lookup
+    evaluates `r` once (keeps the executable model linear in the number of setters) -/
+def upd (r : Regs) (a : Nat) (f : Byte → Byte) : Regs := fun x => if x = a then f (r x) else r x
+
+theorem upd_eq_set (r : Regs) (a : Nat) (f : Byte → Byte) : upd r a f = r.set a (f (r a)) := by
+  funext x; unfold upd Regs.set; split <;> simp_all
 
 def matchMapped : IntPins → Bool × Bool
   | .none => (false, false) | .int1 => (true, false) | .int2 => (false, true) | .both => (true, true)
